@@ -338,6 +338,7 @@ impl From<SupportedRegister> for Register {
     fn from(register: SupportedRegister) -> Self {
         match register {
             SupportedRegister::RIP => Register::RIP,
+            SupportedRegister::EIP => Register::EIP,
             SupportedRegister::RAX => Register::RAX,
             SupportedRegister::RBX => Register::RBX,
             SupportedRegister::RCX => Register::RCX,
@@ -422,7 +423,6 @@ impl From<SupportedRegister> for Register {
             SupportedRegister::XMM13 => Register::XMM13,
             SupportedRegister::XMM14 => Register::XMM14,
             SupportedRegister::XMM15 => Register::XMM15,
-            _ => panic!("Unsupported register"),
         }
     }
 }
